@@ -27,6 +27,15 @@ def pairs(payload):
         a, b, c = rng.choice(at), rng.choice(at), rng.choice(at)
         out.append((PP.AndPredicate(a, b), rng.choice([a, b, c])))
         out.append((rng.choice([a, c]), PP.AndPredicate(a, b)))
+    # compound antecedents / consequents over a few comparable atoms: |, &, ~ on either side
+    from predicate.standard_predicates import eq_p, ge_p, gt_p, le_p, lt_p
+    core = [ge_p(3), ge_p(2), gt_p(2), eq_p(0), eq_p(3), le_p(1), lt_p(3), PP.always_false_p, PP.always_true_p]
+    for a, b, c in itertools.product(core, repeat=3):
+        if rng.random() < (1.0 if payload["tier"] != "quick" else 0.35):
+            out += [(PP.OrPredicate(a, b), c), (c, PP.OrPredicate(a, b)), (PP.AndPredicate(a, b), c), (c, PP.AndPredicate(a, b))]
+    for a, b in itertools.product(core, repeat=2):
+        out += [(PP.NotPredicate(a), PP.NotPredicate(b)), (PP.NotPredicate(a), b), (a, PP.NotPredicate(b)),
+                (PP.NotPredicate(PP.AndPredicate(a, b)), PP.NotPredicate(a)), (a, PP.NotPredicate(PP.AndPredicate(a, b)))]
     return out
 
 
